@@ -8,6 +8,7 @@ import (
 	"io"
 	"net/url"
 	"path/filepath"
+	"sort"
 	"strings"
 
 	"github.com/valyala/fastjson"
@@ -363,15 +364,13 @@ func irisEqual(i1, i2 IRI, checkScheme bool) bool {
 		if len(uqv) != len(uwqv) {
 			return false
 		}
-		for _, uqvv := range uqv {
-			eq := false
-			for _, uwqvv := range uwqv {
-				if uwqvv == uqvv {
-					eq = true
-					continue
-				}
-			}
-			if !eq {
+		// NOTE: a key can be repeated, its values are compared as a multiset
+		left := append([]string{}, uqv...)
+		right := append([]string{}, uwqv...)
+		sort.Strings(left)
+		sort.Strings(right)
+		for i := range left {
+			if left[i] != right[i] {
 				return false
 			}
 		}
